@@ -150,6 +150,8 @@ class C05(Check):
         threads = []
         for _ in range(nt):
             prog = []
+            if rng.random() < 0.3:      # make headroom first so that convert / regenerate have something to do
+                prog.append(["consume", rng.randrange(ns), rng.choice([3, 4, 5]), "ATP", False, 0])
             for _ in range(rng.choice([1, 1, 2, 2, 3]) if nt == 2 else rng.choice([1, 1, 2])):
                 i = rng.randrange(ns)
                 k = rng.random()
@@ -178,6 +180,13 @@ class C05(Check):
         # opposite-direction transfers
         {"stores": [{"budget": 5, "gtp": 0, "nadh": 0, "max_debt": 0, "rate": 0.5}] * 2,
          "threads": [[["transfer", 0, 1, 3, "ATP"]], [["transfer", 1, 0, 3, "ATP"]]]},
+        # convert racing with draws on the NADH reserve (headroom created first)
+        {"stores": [{"budget": 10, "gtp": 0, "nadh": 5, "max_debt": 0, "rate": 0.5}],
+         "threads": [[["consume", 0, 6, "ATP", False, 0], ["convert", 0, 5]], [["consume", 0, 5, "NADH", False, 0]]]},
+        {"stores": [{"budget": 10, "gtp": 0, "nadh": 5, "max_debt": 0, "rate": 0.5}],
+         "threads": [[["consume", 0, 8, "ATP", False, 0], ["convert", 0, 5]], [["consume", 0, 6, "ATP", False, 0]]]},
+        {"stores": [{"budget": 10, "gtp": 0, "nadh": 4, "max_debt": 0, "rate": 0.5}],
+         "threads": [[["consume", 0, 7, "ATP", False, 0], ["convert", 0, 4]], [["convert", 0, 4]]]},
         # spend with NADH top-up vs convert
         {"stores": [{"budget": 5, "gtp": 0, "nadh": 3, "max_debt": 5, "rate": 0.5}],
          "threads": [[["consume", 0, 8, "ATP", True, 0]], [["convert", 0, 3], ["regen", 0, 5, "ATP"]]]},
